@@ -19,8 +19,8 @@ PROPS = {
     },
     "C16": {
         "pkg": "hpure", "test": "TestC16", "replay_test": "TestC16_Replay", "level": "exploration",
-        "quick": T(8, 0, fixed=["TestC16_Exhaustive"], timeout=900, tests=[{"test": "TestC16", "checks": 3000}, {"test": "TestC16_Manager", "checks": 40, "pkg": "hreader", "shards": 16}]),
-        "thorough": T(16, 0, fixed=["TestC16_Exhaustive"], timeout=7000, tests=[{"test": "TestC16", "checks": 150000}, {"test": "TestC16_Manager", "checks": 500, "pkg": "hreader"}]),
+        "quick": T(8, 0, fixed=["TestC16_Exhaustive"], timeout=900, tests=[{"test": "TestC16", "checks": 3000}, {"test": "TestC16_Manager", "checks": 40, "pkg": "hreader", "shards": 16}, {"test": "TestC16_FailedStart", "checks": 30, "pkg": "hreader", "shards": 2}]),
+        "thorough": T(16, 0, fixed=["TestC16_Exhaustive"], timeout=7000, tests=[{"test": "TestC16", "checks": 150000}, {"test": "TestC16_Manager", "checks": 500, "pkg": "hreader"}, {"test": "TestC16_FailedStart", "checks": 300, "pkg": "hreader", "shards": 4}]),
         "rule": "layer 1: real util.ChannelMapping driven by the manager's direct-assignment protocol over counts 0..6 x 0..6 and random offer sequences (rapid), "
                 "plus exhaustive enumeration of all offer sequences of length 5 (quick) / 6 (thorough) for counts 1..3 x 1..3; oracle on public queries: function, stability, "
                 "quota ceil(larger/smaller) (1-to-1 for equal counts), assignment iff quota free. non-trivial = at least one offer refused by the quota after >= 2 assignments; distinct = distinct (counts, offer sequence)",
